@@ -151,6 +151,16 @@ pub fn known(case: &Case, msg: &str) -> Option<&'static str> {
 }
 
 fn extra(cfg: &RunCfg, w: &mut Worker) {
+    corpus_subrun(cfg, w, |i, paras, width, v| {
+        let text = if v == 3 && i + 1 < paras.len() { format!("{}\n{}", paras[i], paras[i + 1]) } else { paras[i].clone() };
+        grid_variant(v, i, width, true).map(|mut o| {
+            if v == 2 {
+                o.ii = "* ".to_string();
+                o.si = "      ".to_string();
+            }
+            Case::new("wrap").text(text).opt(o)
+        })
+    });
     // exhaustive small strings, first-fit only, with indents of different widths
     let max = if cfg.thorough { 6 } else { 4 };
     let threads = cfg.threads.max(1);
